@@ -95,6 +95,9 @@ func genC03Op(t *rapid.T, a *ref.AF) OpC03 {
 			n = rapid.SampledFrom([]int{255, 256, 257, 300, 511, 512, 513}).Draw(t, "dl-huge-n")
 		}
 		o.Data = genBytes(t, n, n, "data")
+		if n == 0 {
+			o.B = rapid.Bool().Draw(t, "as-nil")
+		}
 		if o.Kind == "tpd" && n >= 10 && rapid.IntRange(0, 3).Draw(t, "tpd-structured") == 0 {
 			// private data that looks like a descriptor chain ending in an EBP descriptor
 			d := []byte{}
@@ -296,6 +299,9 @@ func c03Call(p *packet.Packet, o OpC03) error {
 	case "tpd", "ext":
 		// the data sits in a caller buffer with live bytes behind it; the setter may read it and nothing else
 		in, spareIntact := withSpare(o.Data)
+		if len(o.Data) == 0 && o.B {
+			in = nil // zero bytes handed over as nil instead of an empty slice: the same request
+		}
 		var err error
 		if o.Kind == "tpd" {
 			err = af.SetTransportPrivateData(in)
